@@ -7,6 +7,7 @@ import (
 	"go/ast"
 	"go/token"
 	"go/types"
+	"golang.org/x/tools/go/ssa"
 	"sort"
 	"strings"
 
@@ -22,7 +23,7 @@ var Registry = map[string]Rule{}
 
 var wiringFuncs = map[string]func(*core.Ctx, string){
 	"snps.SNPs": wiringSNPs, "updown.List": wiringList, "closest.Closest+ClosestN": wiringClosest, "sam.ToMultiAlign": wiringToMultiAlign,
-	"sam.ToPairAlign": wiringToPairAlign, "updown.TopRanking": wiringTopRanking, "sam.Variants": wiringSamVariants, "variants.Variants": wiringVariants,
+	"sam.ToPairAlign": wiringToPairAlign, "updown.TopRanking": wiringTopRanking, "sam.Variants": wiringSamVariants, "variants.Variants": wiringVariants, "sam.Indels": wiringIndels,
 }
 
 // wiringProps: the entry points whose wiring carries each property's behaviour (Engine E).
@@ -33,8 +34,8 @@ var wiringProps = map[string][]string{
 	"C11": {"sam.Variants", "variants.Variants", "sam.ToPairAlign", "sam.ToMultiAlign"}, "C12": {"snps.SNPs", "updown.List"},
 	"C13": {"snps.SNPs", "variants.Variants", "sam.Variants"}, "C14": {"variants.Variants", "sam.Variants"},
 	"C15": {"sam.ToMultiAlign", "sam.ToPairAlign", "variants.Variants", "sam.Variants"},
-	"C18": {"snps.SNPs", "updown.List", "closest.Closest+ClosestN", "sam.ToMultiAlign", "sam.ToPairAlign", "updown.TopRanking", "sam.Variants", "variants.Variants"},
-	"C19": {"snps.SNPs", "updown.List", "closest.Closest+ClosestN", "sam.ToMultiAlign", "sam.ToPairAlign", "updown.TopRanking", "sam.Variants", "variants.Variants"},
+	"C18": {"snps.SNPs", "updown.List", "closest.Closest+ClosestN", "sam.ToMultiAlign", "sam.ToPairAlign", "updown.TopRanking", "sam.Variants", "variants.Variants", "sam.Indels"},
+	"C19": {"snps.SNPs", "updown.List", "closest.Closest+ClosestN", "sam.ToMultiAlign", "sam.ToPairAlign", "updown.TopRanking", "sam.Variants", "variants.Variants", "sam.Indels"},
 }
 
 // argRolePkgs: the packages whose internal calls carry each property's options (argument-role rule; nil = all).
@@ -49,6 +50,7 @@ var argRolePkgs = map[string][]string{
 // the property's behaviour is checked with it (C18, C19: every command).
 func register(id string, r Rule) {
 	Registry[id] = func(c *core.Ctx) {
+		indelsOutOfScope = id == "C12"
 		r(c)
 		var paths []string
 		for _, s := range cmdSpecs {
@@ -78,6 +80,7 @@ func register(id string, r Rule) {
 func newEval(c *core.Ctx) *eval.Evaluator {
 	ev := eval.New(c.Fset, c.FuncDecl)
 	ev.VarInit = c.VarInit
+	ev.Adapt = func(fn *types.Func, args []eval.Value) ([]eval.Value, error) { return adaptArgs(c, fn, args) }
 	return ev
 }
 
@@ -272,4 +275,237 @@ func currentName(c *core.Ctx, pkg, name string) string {
 		return f.Name()
 	}
 	return name
+}
+
+// adaptArgs: the rules call repository functions with arguments laid out for the signature the function had on
+// the reference tree. When the function still exists under its name but its interface was refactored
+// (parameters reordered, renamed, bundled into a struct, an unused one dropped), the arguments are re-bound by
+// type and name: exact name, then one name containing the other, then the only candidate of that type. An
+// argument that cannot be bound unambiguously makes the call undecided - never a guess.
+func adaptArgs(c *core.Ctx, fn *types.Func, args []eval.Value) ([]eval.Value, error) {
+	if fn == nil || fn.Pkg() == nil {
+		return args, nil
+	}
+	sig := fn.Type().(*types.Signature)
+	rel := c.RelOf(fn.Pkg())
+	if rel == "" || sig.Recv() != nil || !c.SigChanged(rel, fn.Name()) {
+		return args, nil
+	}
+	names, typs, ok := c.RefParams(rel, fn.Name())
+	if !ok || len(names) != len(args) {
+		return args, nil
+	}
+	type cand struct {
+		name, typ string
+		v         eval.Value
+		used      bool
+	}
+	pool := make([]*cand, len(args))
+	for i := range args {
+		pool[i] = &cand{names[i], typs[i], args[i], false}
+	}
+	lower := strings.ToLower
+	pick := func(pname string, t types.Type) (eval.Value, bool) {
+		ts := core.TypeStr(t)
+		var same []*cand
+		for _, k := range pool {
+			if !k.used && k.typ == ts {
+				same = append(same, k)
+			}
+		}
+		choose := func(pred func(k *cand) bool) *cand {
+			var hit *cand
+			for _, k := range same {
+				if pred(k) {
+					if hit != nil {
+						return nil
+					}
+					hit = k
+				}
+			}
+			return hit
+		}
+		k := choose(func(k *cand) bool { return lower(k.name) == lower(pname) })
+		if k == nil {
+			k = choose(func(k *cand) bool {
+				a, b := lower(k.name), lower(pname)
+				return a != "" && b != "" && (strings.Contains(a, b) || strings.Contains(b, a))
+			})
+		}
+		if k == nil && len(same) == 1 {
+			k = same[0]
+		}
+		if k == nil {
+			return nil, false
+		}
+		k.used = true
+		return k.v, true
+	}
+	// role inference: the names under which a parameter (or a field of a struct parameter) is handed on to
+	// functions whose interface is unchanged
+	ssaFn := c.SSAFunc(rel, fn.Name())
+	aliases := func(param int, field string) []string {
+		if ssaFn == nil || param >= len(ssaFn.Params) {
+			return nil
+		}
+		var roots []ssa.Value
+		pv := ssa.Value(ssaFn.Params[param])
+		if field == "" {
+			roots = append(roots, pv)
+		}
+		var out []string
+		seen := map[ssa.Value]bool{}
+		var follow func(v ssa.Value, d int)
+		follow = func(v ssa.Value, d int) {
+			if v == nil || seen[v] || d > 6 || v.Referrers() == nil {
+				return
+			}
+			seen[v] = true
+			for _, r := range *v.Referrers() {
+				switch x := r.(type) {
+				case ssa.CallInstruction:
+					cal := x.Common().StaticCallee()
+					if cal == nil || cal.Pkg == nil || c.RelOf(cal.Pkg.Pkg) == "" || c.SigChanged(c.RelOf(cal.Pkg.Pkg), cal.Name()) {
+						continue
+					}
+					for i, a := range x.Common().Args {
+						if a == v && i < cal.Signature.Params().Len() {
+							out = append(out, cal.Signature.Params().At(i).Name())
+						}
+					}
+				case *ssa.Phi:
+					follow(x, d+1)
+				case *ssa.Store:
+					if al, ok := x.Addr.(*ssa.Alloc); ok && x.Val == v {
+						for _, ar := range *al.Referrers() {
+							if u, ok := ar.(*ssa.UnOp); ok && u.Op == token.MUL {
+								follow(u, d+1)
+							}
+							if fa, ok := ar.(*ssa.FieldAddr); ok && field != "" {
+								if st, ok := derefType(fa.X.Type()).Underlying().(*types.Struct); ok && st.Field(fa.Field).Name() == field {
+									for _, fr := range *fa.Referrers() {
+										if u, ok := fr.(*ssa.UnOp); ok && u.Op == token.MUL {
+											follow(u, d+1)
+										}
+									}
+								}
+							}
+						}
+					}
+				case *ssa.Field:
+					if field != "" && x.X == v {
+						if st, ok := x.X.Type().Underlying().(*types.Struct); ok && st.Field(x.Field).Name() == field {
+							follow(x, d+1)
+						}
+					}
+				case *ssa.MakeClosure:
+					// captured: follow the free variable inside the literal
+					if lit, ok := x.Fn.(*ssa.Function); ok {
+						for i, b := range x.Bindings {
+							if b == v && i < len(lit.FreeVars) {
+								follow(lit.FreeVars[i], d+1)
+							}
+						}
+					}
+				}
+			}
+		}
+		if field == "" {
+			follow(pv, 0)
+		} else {
+			// the struct parameter itself: look for its field reads
+			seenRoot := map[ssa.Value]bool{}
+			var openStruct func(v ssa.Value, d int)
+			openStruct = func(v ssa.Value, d int) {
+				if v == nil || seenRoot[v] || d > 4 || v.Referrers() == nil {
+					return
+				}
+				seenRoot[v] = true
+				for _, r := range *v.Referrers() {
+					switch x := r.(type) {
+					case *ssa.Field:
+						if st, ok := x.X.Type().Underlying().(*types.Struct); ok && st.Field(x.Field).Name() == field {
+							follow(x, 0)
+						}
+					case *ssa.Store:
+						if al, ok := x.Addr.(*ssa.Alloc); ok && x.Val == v {
+							for _, ar := range *al.Referrers() {
+								if fa, ok := ar.(*ssa.FieldAddr); ok {
+									if st, ok := derefType(fa.X.Type()).Underlying().(*types.Struct); ok && st.Field(fa.Field).Name() == field {
+										for _, fr := range *fa.Referrers() {
+											if u, ok := fr.(*ssa.UnOp); ok && u.Op == token.MUL {
+												follow(u, 0)
+											}
+										}
+									}
+								}
+								if u, ok := ar.(*ssa.UnOp); ok && u.Op == token.MUL {
+									openStruct(u, d+1)
+								}
+							}
+						}
+					}
+				}
+			}
+			openStruct(pv, 0)
+		}
+		_ = roots
+		return out
+	}
+	curParam := 0
+	var bind func(pname string, t types.Type, depth int) (eval.Value, bool)
+	bind = func(pname string, t types.Type, depth int) (eval.Value, bool) {
+		if v, ok := pick(pname, t); ok {
+			return v, true
+		}
+		// by the role the value plays further down (the parameter names of unchanged callees)
+		field := ""
+		if depth > 0 {
+			field = pname
+		}
+		for _, al := range aliases(curParam, field) {
+			ts := core.TypeStr(t)
+			for _, k := range pool {
+				if !k.used && k.typ == ts && lower(k.name) == lower(al) {
+					k.used = true
+					return k.v, true
+				}
+			}
+		}
+		// a channel whose direction was narrowed (chan T -> <-chan T / chan<- T)
+		if ct, ok := t.Underlying().(*types.Chan); ok && ct.Dir() != types.SendRecv {
+			if v, ok := pick(pname, types.NewChan(types.SendRecv, ct.Elem())); ok {
+				return v, true
+			}
+		}
+		if st, ok := t.Underlying().(*types.Struct); ok && depth < 2 {
+			sv := &eval.StructVal{T: t, F: map[string]eval.Value{}}
+			for i := 0; i < st.NumFields(); i++ {
+				fv, ok := bind(st.Field(i).Name(), st.Field(i).Type(), depth+1)
+				if !ok {
+					return nil, false
+				}
+				sv.F[st.Field(i).Name()] = fv
+			}
+			return sv, true
+		}
+		if pt, ok := t.Underlying().(*types.Pointer); ok && depth < 2 {
+			if v, ok := bind(pname, pt.Elem(), depth+1); ok {
+				cell := v
+				return &eval.Ref{Get: func() eval.Value { return cell }, Set: func(x eval.Value) { cell = x }}, true
+			}
+		}
+		return nil, false
+	}
+	out := make([]eval.Value, sig.Params().Len())
+	for i := 0; i < sig.Params().Len(); i++ {
+		p := sig.Params().At(i)
+		curParam = i
+		v, ok := bind(p.Name(), p.Type(), 0)
+		if !ok {
+			return nil, fmt.Errorf("the interface of %s.%s was refactored and its parameter %s (%s) cannot be bound unambiguously from the reference arguments (%s)", rel, fn.Name(), p.Name(), core.TypeStr(p.Type()), strings.Join(names, ", "))
+		}
+		out[i] = v
+	}
+	return out, nil
 }
